@@ -411,17 +411,23 @@ def run(ctx):
                     if sbb not in on:
                         continue
                     d0 = strip_refs(d)
+                    neg_ = False
                     while d0.k == "un" and d0.a[0] == "Not":
                         d0 = strip_refs(d0.a[1])
+                        neg_ = not neg_
                     if d0.k == "discr" and strip_refs(d0.a[0]).k == "call" and strip_refs(d0.a[0]).a[0].endswith("File::open"):
                         outcomes.append(vals == (1,) or (vals == "otherwise" and 1 not in allv and 0 in allv))
                         continue
                     mentions_ts = any(self_path(x) == (ts,) for x in d0.walk())
                     mentions_map = any(self_path(x)[:2] == (R["sug_field"], R["user_autocorrect"]) for x in d0.walk() if self_path(x))
+                    truth = (vals != (0,)) if vals != "otherwise" else (0 in allv)          # the branch taken: discriminant / bool ≠ 0 ?
+                    if neg_:
+                        truth = not truth
                     if d0.k == "discr" and mentions_ts:
-                        why.append(("state", sbb))
+                        why.append(("state" if not truth else "loaded", sbb))           # discriminant 0 = None = nothing loaded
                     elif d0.k == "call" and mentions_ts and d0.a[0].split("::")[-1] in ("is_some", "is_none"):
-                        why.append(("state", sbb))
+                        nothing = (not truth) if d0.a[0].split("::")[-1] == "is_some" else truth
+                        why.append(("state" if nothing else "loaded", sbb))
                     elif d0.k == "call" and mentions_ts and d0.a[0].split("::")[-1] in ("eq", "ne", "gt", "lt", "ge", "le"):
                         why.append(("sentinel", sbb))
                     elif mentions_map and d0.k == "call" and d0.a[0].split("::")[-1] in ("is_empty", "len"):
@@ -432,7 +438,7 @@ def run(ctx):
                     kept.append((path, why))
             if kept:
                 sent = [w for (_, why) in kept for w in why if w[0] == "sentinel" and not any(x[0] == "state" for x in why)]
-                unexplained = [pth for (pth, why) in kept if not why]
+                unexplained = [pth for (pth, why) in kept if not [w for w in why if w[0] != "loaded"]]
                 other = [w for (_, why) in kept for w in why if w[0] == "other" and not any(x[0] in ("state", "sentinel") for x in why)]
                 if sent:
                     r5.violation("removed-state", "when the file cannot be opened the old entries are kept if the remembered modification time equals a fixed time value: "
